@@ -167,21 +167,21 @@ Definition m_io_read {E : Type} (rd : g_reader E) (s : slice) : M (Z * option E 
    eof / unexp / is_eof are io.EOF, io.ErrUnexpectedEOF and the comparison with io.EOF in the error type of the
    caller.  Fuel len(buf) + 2: enough for every reader that makes progress (n > 0 or an error on a non-empty
    buffer); a reader that keeps answering (0, nil) makes Go loop forever and this function OutOfFuel. *)
+Definition m_read_full_body {E : Type} (s : slice) (st : Z * option E * g_reader E)
+  : M (step (Z * option E * g_reader E) unit) :=
+  let '(n, err, rd) := st in
+  if (n <? sl_len s) && (match err with None => true | Some _ => false end)
+  then mbind (m_slice s n (sl_len s)) (fun sub =>
+       mbind (m_io_read rd sub) (fun '(nn, err', rd') =>
+       ret (Continue (n + nn, err', rd'))))
+  else ret (Break (n, err, rd)).
 Definition m_io_read_full {E : Type} (eof unexp : E) (is_eof : E -> bool) (rd : g_reader E) (s : slice)
   : M (Z * option E * g_reader E) :=
-  let mn := sl_len s in
-  mbind (m_loop (Z.to_nat mn + 2)
-           (fun '(n, err, rd) =>
-              if (n <? mn) && (match err with None => true | Some _ => false end)
-              then mbind (m_slice s n (sl_len s)) (fun sub =>
-                   mbind (m_io_read rd sub) (fun '(nn, err', rd') =>
-                   ret (Continue (R := unit) (n + nn, err', rd'))))
-              else ret (Break (n, err, rd)))
-           (0, None, rd))
+  mbind (m_loop (Z.to_nat (sl_len s) + 2) (m_read_full_body s) (0, None, rd))
         (fun r => match r with
                   | inr _ => m_panic
                   | inl (n, err, rd) =>
-                      let err := if mn <=? n then None
+                      let err := if sl_len s <=? n then None
                                  else if (0 <? n) && (match err with Some e => is_eof e | None => false end)
                                       then Some unexp else err in
                       ret (n, err, rd)
